@@ -9,3 +9,13 @@ def plans(tier):
     sim = [dict(cfg="A", depth=16, maxtime=2, alpha=["cer", "req", "ureq", "dwr"], num=400 if th else 80, maxconn=2, pairs=False, faults=False),
            dict(cfg="HOLD2", depth=16, maxtime=2, alpha=["cer", "req"], num=400 if th else 80, maxconn=3, pairs=False, faults=False)]
     return mc, sim
+
+
+def enum_plans(tier):
+    th = tier == "thorough"
+    from .. import nodetrace as nt
+    # (the CER has identifiers of its own: its answer sits in the same per-origin window as the applications' answers)
+    ready = [{"a": "connect"}, {"a": "feed", "c": 1, "ms": [nt.M("CE", True, 7, 77, oh="p1.r1", auth=[4])]}]
+    return [# a held request answered (2001 or a protocol error) at once or after 100 s of silence, other requests in between,
+            # then its retransmission: every order
+            dict(cfg="HOLDLONG", depth=6 if th else 5, maxtime=100, alpha=["req1", "req1T", "req2", "sube", "jump100"], faults=False, maxconn=1, prefix=ready)]
